@@ -28,6 +28,14 @@ class _Return(Exception):
         self.v = v
 
 
+class _Continue(Exception):
+    pass
+
+
+class _Break(Exception):
+    pass
+
+
 class Yielded(Exception):
     """evaluation reached a `yield` (used to evaluate the set-up half of a context manager)"""
 
@@ -203,9 +211,18 @@ class FDE:
                 it = self._ev(s.iter, env, fi)
                 if not isinstance(it, (list, tuple)):
                     raise Unsupported('for over non-concrete iterable: %s' % unparse(s.iter))
+                broke = False
                 for x in it:
                     self._assign(s.target, x, env, fi)
-                    self._run(s.body, env, fi)
+                    try:
+                        self._run(s.body, env, fi)
+                    except _Continue:
+                        continue
+                    except _Break:
+                        broke = True
+                        break
+                if not broke:
+                    self._run(s.orelse, env, fi)
             elif isinstance(s, ast.Delete):
                 for t in s.targets:
                     if isinstance(t, ast.Subscript):
@@ -220,7 +237,11 @@ class FDE:
                 if not self._truth(self._ev(s.test, env, fi)):
                     raise Raised('AssertionError')
             elif isinstance(s, ast.Continue):
-                raise Unsupported('continue')
+                raise _Continue()
+            elif isinstance(s, ast.Break):
+                raise _Break()
+            elif isinstance(s, (ast.FunctionDef, ast.Lambda)) and False:
+                pass
             else:
                 raise Unsupported('statement %s in %s' % (type(s).__name__, fi.qualname))
 
